@@ -67,14 +67,18 @@ def _next_sort_index() -> int:
     return _global_event_counter.__next__()
 
 
-def reset_event_counter() -> None:
+def reset_event_counter() -> count:
     """Reset the global event counter to zero.
 
     Called by Simulation.__init__() so each simulation run gets
-    deterministic sort indices starting from 0.
+    deterministic sort indices starting from 0.  Returns the new counter so
+    the simulation's heap can share it: events created before the run, during
+    it and while paused then draw from one sequence, keeping same-timestamp
+    events in creation order.
     """
     global _global_event_counter
     _global_event_counter = count()
+    return _global_event_counter
 
 # Event-level tracing flag — disabled by default for performance.
 # When enabled, Event.invoke() records stack/trace spans in event.context.
